@@ -230,6 +230,16 @@ pub fn pal256(r: &mut Rng) -> U256 {
             ];
             U256(*r.pick(&pats))
         }
+        6 => {
+            // sparse words: every 64-bit word independently zero or random (limb-boundary structure)
+            let mut w = [0u64; 4];
+            for x in w.iter_mut() {
+                if r.chance(1, 2) {
+                    *x = if r.chance(1, 3) { 1 } else { r.next_u64() };
+                }
+            }
+            U256(w)
+        }
         _ => {
             let bits = r.range(1, 256) as u32;
             r.bits256(bits)
